@@ -334,6 +334,27 @@ func sleepHook(d time.Duration) bool {
 	return true
 }
 
+// nextClockJump: a multiple (1/2, 1, 3/2, 3, 10 or 100 times) of one of the durations the tree's own source mentions
+// (N * time.Second and the like, collected by the instrumenter) - the clock moves on the scale the code looks at, so
+// a window kept in milliseconds is not asked to catch up with days - or, if the source mentions none, one of a
+// fixed list up to an hour.
+//
+//go:norace
+func nextClockJump() int64 {
+	if n := uint64(len(hook.ClockScales)); n > 0 {
+		sc := hook.ClockScales[clkRnd()%n]
+		j := sc / 2 * int64([...]int{1, 2, 3, 6, 20, 200}[clkRnd()%6])
+		if j < 1000 {
+			j = 1000
+		}
+		if j > clockJumps[len(clockJumps)-1] {
+			j = clockJumps[len(clockJumps)-1]
+		}
+		return j
+	}
+	return clockJumps[clkRnd()%uint64(len(clockJumps)-2)]
+}
+
 //go:norace
 func clockTick() {
 	hook.SimNow += 1000
@@ -343,7 +364,7 @@ func clockTick() {
 			// at most eight jumps per run: code whose work is proportional to the time that has passed (a window
 			// advanced second by second) must be able to catch up with the clock
 			if hook.SimNow < simEpoch+simHorizon && sClkJumps < 8 { // int64 nanoseconds end in 2262: no jumps beyond 2176, the clock then only creeps
-				hook.SimNow += clockJumps[clkRnd()%uint64(len(clockJumps))]
+				hook.SimNow += nextClockJump()
 				sClkJumps++
 			}
 			sClkLeft = 1 + clkRnd()%(2*sClkRate)
